@@ -143,9 +143,21 @@ func init() {
 				if !strings.EqualFold(a[0], "jset") || len(a) < 4 {
 					return false
 				}
+				// sjson reads a component made of digits as an array index with its own
+				// wrapping atoi, so components beyond uint64 count as well
 				for _, part := range strings.Split(a[3], ".") {
 					part = strings.TrimPrefix(part, ":")
-					if n, err := strconv.ParseUint(part, 10, 64); err == nil && n > 100000 {
+					digits := part != ""
+					for i := 0; i < len(part); i++ {
+						if part[i] < '0' || part[i] > '9' {
+							digits = false
+							break
+						}
+					}
+					if !digits {
+						continue
+					}
+					if n, err := strconv.ParseUint(part, 10, 64); err != nil || n > 100000 {
 						return true
 					}
 				}
@@ -476,7 +488,10 @@ func stuckCommand(dump string) (frame, state, stack string) {
 		if top == "" {
 			continue
 		}
-		lockWait := strings.Contains(st, "Mutex") || strings.Contains(st, "semacquire") || strings.Contains(blk, "sync.(*RWMutex).Lock") || strings.Contains(blk, "sync.(*RWMutex).RLock") || strings.Contains(blk, "(*rwmutex).")
+		// waiting for the server lock = the first frame outside the runtime and
+		// sync packages is tile38's lock wrapper (the goroutine state alone does not
+		// tell: a busy goroutine can sit in "semacquire" inside a GC assist)
+		lockWait := strings.Contains(top, "server.(*rwmutex).") || strings.Contains(top, "server.(*rwspinlock).")
 		if lockWait {
 			if waiting == "" {
 				waiting = top
@@ -1365,7 +1380,7 @@ func TestC16_ContainArgs(t *testing.T) {
 	c.Rule("1-4 well-framed commands per connection (RESP or JSON output) drawn from templates of the whole command table (SET/FSET with RETURN, GET, DEL, PDEL, RENAME, EXPIRE, TTL..., JSET/JGET/JDEL, KEYS, SCAN/SEARCH/NEARBY/WITHIN/INTERSECTS with CURSOR/LIMIT/MATCH/WHERE/WHEREIN/WHEREEVAL/SPARSE/CLIP/BUFFER/DETECT/COMMANDS/FENCE/MVT and every output and area kind, area expressions, TEST, SETHOOK/SETCHAN, EVAL*/SCRIPT, TIMEOUT, pub/sub, admin reads) and then damaged 0-3 times (replace/insert a hostile constant, option token, extreme number or pool name; delete; truncate; swap) against a small seeded dataset on a subprocess server; commands whose documented effect reaches other connections (FLUSHDB, FOLLOW, READONLY, CONFIG SET/REWRITE, CLIENT KILL, SHUTDOWN, AOFSHRINK, looping scripts) are not generated. Oracle: process alive, bystander PING + canary unchanged. Shapes matching the predicate of a listed known finding are counted as excluded. Non-trivial: a damaged command got a reply; distinct by (command, damage operations, reply class, output mode).")
 	g := newGuard(t, c)
 	t.Cleanup(func() { g.report(t); g.stop() })
-	ev.Rapid("contain-args", ev.Pick(4000, 50000))
+	ev.Rapid("contain-args", ev.Pick(4000, 35000))
 	rapid.Check(t, func(rt *rapid.T) {
 		in := fuzzInput{Kind: "cmds", JSON: rapid.IntRange(0, 3).Draw(rt, "json") == 0}
 		n := rapid.IntRange(1, 4).Draw(rt, "ncmds")
